@@ -542,3 +542,10 @@ SPECS["C01"]["contracts"].append("smpl_extract.akai.sat:SegmentAllocationTableAd
 SPECS["C07"]["level_text"] += ("; the AKAI directory area: every sector carrying a reserved flag ends up linked to the next sector while that one carries a flag too and ends the run otherwise "
                                "(second proof over the same decoder, own invariants: the walk never visits a sector twice, a directory run only moves upwards)")
 SPECS["C07"]["not_covered"] = ["the construct glue that hands the table words to the decoders"]
+_ISO = [f"lemma:isolation[{a} | {b}]" for (a, b) in (("FileStream", "FileStream"), ("FileStream", "StreamOffset"), ("StreamOffset", "StreamOffset"),
+                                                    ("StreamOffset", "FileStream"), ("StreamWrapper", "SectorStream"), ("MdfStream", "StreamOffset"))]
+SPECS["C11"]["contracts"] += _ISO
+SPECS["C11"]["level_text"] += (". Added: the isolation step is machine-checked (lemma:isolation for six pairs of view classes over ONE shared handle): after any seek and read of the other "
+                               "view, a view's next read returns exactly its own logical bytes from its own position - every interleaving is a sequence of such steps")
+SPECS["C09"]["contracts"] += ["smpl_extract.alcohol.mdf:is_mdf_image", "smpl_extract.alcohol.mdx:is_mdx_image", "smpl_extract.roland.s7xx.image:is_roland_s7xx_image"]
+SPECS["C09"]["level_text"] += "; the three detection predicates answer whether the header at position 0 parses, let no parser exception out, and put the cursor back where it was"
